@@ -90,6 +90,14 @@ type IterV struct {
 
 type ChanV struct{ id int }
 
+// LazyV is a contract value that is computed (possibly forking) only when the code under
+// analysis first looks at it: fields of library results that most callers never read.
+type LazyV struct {
+	Fn     *FuncV
+	forced bool
+	V      Value
+}
+
 // pathKey returns a comparable rendering of a pointer for identity comparison.
 func (p Ptr) same(q Ptr) bool {
 	if p.O != q.O || len(p.Path) != len(q.Path) {
